@@ -1,10 +1,5 @@
 package xpath
 
-import (
-	"math"
-	"strconv"
-)
-
 // The XPath number operator function list.
 
 type logical func(iterator, string, interface{}, interface{}) bool
@@ -73,10 +68,7 @@ func cmpNumericNumeric(t iterator, op string, m, n interface{}) bool {
 func cmpNumericString(t iterator, op string, m, n interface{}) bool {
 	a := m.(float64)
 	b := n.(string)
-	num, err := strconv.ParseFloat(b, 64)
-	if err != nil {
-		num = math.NaN()
-	}
+	num := stringToNumber(b)
 	return cmpNumberNumberF(op, a, num)
 }
 
@@ -89,10 +81,7 @@ func cmpNumericNodeSet(t iterator, op string, m, n interface{}) bool {
 		if node == nil {
 			break
 		}
-		num, err := strconv.ParseFloat(node.Value(), 64)
-		if err != nil {
-			num = math.NaN()
-		}
+		num := stringToNumber(node.Value())
 		if cmpNumberNumberF(op, a, num) {
 			return true
 		}
@@ -108,10 +97,7 @@ func cmpNodeSetNumeric(t iterator, op string, m, n interface{}) bool {
 		if node == nil {
 			break
 		}
-		num, err := strconv.ParseFloat(node.Value(), 64)
-		if err != nil {
-			num = math.NaN()
-		}
+		num := stringToNumber(node.Value())
 		if cmpNumberNumberF(op, num, b) {
 			return true
 		}
@@ -164,10 +150,7 @@ func cmpNodeSetNodeSet(t iterator, op string, m, n interface{}) bool {
 func cmpStringNumeric(t iterator, op string, m, n interface{}) bool {
 	a := m.(string)
 	b := n.(float64)
-	num, err := strconv.ParseFloat(a, 64)
-	if err != nil {
-		num = math.NaN()
-	}
+	num := stringToNumber(a)
 	return cmpNumberNumberF(op, b, num)
 }
 
